@@ -46,6 +46,9 @@ PATCHES = {
     "symexpr": ("movq L2(%rip), %rax", {}, None),
     # a RIP-relative operand FOLLOWED by an immediate (the PC-relative bias differs from the field's distance to the end of the
     # instruction), and an explicit addend
+    # patches whose bytes are a PREFIX of the bytes they replace / of the bytes at the insertion point (b1 starts with 53 = push %rbx)
+    "samehead": ("pushq %rbx", {}, None),
+    "samehead2": ("pushq %rbx\npushq %rsi", {}, None),
     "symexprimm": ("addl $1, L2(%rip)", {}, None),
     "symexprimm4": ("movq $7, L2(%rip)", {}, None),
     "symexpradd": ("leaq L2+4(%rip), %rax", {}, None),
@@ -176,7 +179,7 @@ def single_edits(kind, patches, with_proxy_delete=True):
         for o2 in bounds[i + 1:]:
             out.append(("del", o, o2 - o, None))
             for pn in patches:
-                if pn in ("plain", "ret", "jmpL2", "lab", "two"):
+                if pn in ("plain", "ret", "jmpL2", "lab", "two", "samehead", "samehead2"):
                     out.append(("rep", o, o2 - o, pn))
     if with_proxy_delete:
         out.append(("delproxy", 0, len(KINDS[kind][0]), None))
